@@ -541,6 +541,7 @@ GUARDS: dict[str, tuple[str, str]] = {
     "saved-thresholds-lenient": ("hmmer", "saved thresholds more lenient, hits on both sides of / on the limits"),
     "pfam-version": ("hmmer", "pfam database version 36.0 requested now (saved 35.0)"),
     "tta-threshold": ("tta", "tta threshold moved: saved/new in {below, equal, above} the GC content"),
+    "results-file-schema": ("results_file", "the results file as a whole carries a newer / unknown schema number"),
 }
 SCHEMA_KEY = {"sideloader": "schema_version", "hmm_detection": "schema_version",
               "nrps_pks_domains": "schema_version", "full_hmmer": "schema", "cluster_hmmer": "schema",
@@ -561,6 +562,10 @@ def _guard_cases() -> Iterator[dict]:
             else:
                 shorts = [target]
             for short in shorts:
+                if guard == "results-file-schema":
+                    for schema in (5, 0, 99):
+                        yield {"family": "guard", "base": base, "guard": guard, "module": short, "schema": schema}
+                    continue
                 if guard == "tta-threshold":
                     for old in TTAS:
                         for new in TTAS:
@@ -574,7 +579,7 @@ def _eval_guard(case: dict, scratch: str, world: W.World) -> Outcome:
     mods = W.am()
     base = dict(_guard_bases()[case["base"]])
     guard, short = case["guard"], case["module"]
-    name = LONG[short]
+    name = LONG.get(short, "")
     if guard == "tta-threshold":
         base["tta"] = case["old"]
     world.spec = base["rec"]
@@ -586,6 +591,8 @@ def _eval_guard(case: dict, scratch: str, world: W.World) -> Outcome:
             json1 = W.results_json(results1)
     except Exception as err:  # pylint: disable=broad-except
         return [("skipped-original-run-failed", True, False, _tb(err), None)]
+    if guard == "results-file-schema":
+        return _eval_file_schema(case, record1, results1, scratch)
     if name not in json1:
         return [("guard-module-had-no-results", True, False, "", None)]
     saved = mods["json"].loads(json1[name])
@@ -698,6 +705,29 @@ def _eval_guard(case: dict, scratch: str, world: W.World) -> Outcome:
         "the saved results were regenerated and kept although they were saved under other conditions" + \
         ("" if same else "; they also differ from a fresh run: " + _first_diff(json2[name], fresh.get(name, "<none>")))
     return [(clause, not kept, nontrivial, detail, None)]
+
+
+def _eval_file_schema(case: dict, record1: Any, results1: dict, scratch: str) -> Outcome:
+    """ a results file whose top-level schema number is not the current one nor one the code lists as
+        compatible must be refused by AntismashResults.from_file """
+    mods = W.am()
+    serialiser = mods["serialiser"]
+    current = serialiser.AntismashResults.SCHEMA_VERSION
+    if case["schema"] == current or case["schema"] in serialiser.AntismashResults.COMPATIBLE_SCHEMAS[current]:
+        return [("guard-schema-is-compatible", True, False, "", None)]
+    path = os.path.join(scratch, "results.json")
+    serialiser.AntismashResults("input.gbk", [record1], [results1], "8.dev").write_to_file(path)
+    with open(path, encoding="utf-8") as handle:
+        data = std_json.load(handle)
+    data["schema"] = case["schema"]
+    with open(path, "w", encoding="utf-8") as handle:
+        std_json.dump(data, handle)
+    try:
+        serialiser.AntismashResults.from_file(path)
+    except Exception as err:  # pylint: disable=broad-except
+        return [("changed-results-file-schema-refused[results_file]", True, True, f"refused: {type(err).__name__}", None)]
+    return [("changed-results-file-schema-refused[results_file]", False, True,
+             f"a results file with schema {case['schema']} (current {current}) was loaded without complaint", None)]
 
 
 # ----------------------------------------------------------------------------------------------
